@@ -30,6 +30,7 @@ CONSTANTS
   MaxUserCalls = 4
   InstallKinds = {"jump"}
   Faults = {}
+  SiteReuse = FALSE
   MaxLives = 1
   Gates = {"ok"}
   MaxInstalls = 2
